@@ -529,6 +529,7 @@ func c12Check(m *c12Model, o *c12Obs) []c12Viol {
 var (
 	c12Insts    sync.Map // id -> *c12Inst
 	c12InstSeq  uint64
+	c12ConnSeq  int64
 	c12Upgrader = websocket.Upgrader{CheckOrigin: func(*http.Request) bool { return true }}
 )
 
@@ -551,9 +552,15 @@ func c12Recorder() *httptest.Server {
 			return
 		}
 		defer conn.Close()
-		for {
+		// developer aid (self-test of the watchdog/redial path): VERIF_C12_TEST_DROPCONN=n makes
+		// the endpoint drop every 4th connection after n messages
+		dropAfter := 0
+		if n, err := strconv.Atoi(os.Getenv("VERIF_C12_TEST_DROPCONN")); err == nil && n > 0 && atomic.AddInt64(&c12ConnSeq, 1)%4 == 1 {
+			dropAfter = n
+		}
+		for nmsg := 1; ; nmsg++ {
 			_, msg, err := conn.ReadMessage()
-			if err != nil {
+			if err != nil || (dropAfter > 0 && nmsg > dropAfter) {
 				return
 			}
 			var env protocol.Envelope
@@ -962,6 +969,7 @@ func (m *c12Model) String() string {
 
 type c12Worker struct {
 	conn *wsclient.Conn
+	url  string
 }
 
 // run drives one history. cont=true keeps going after a refuting prefix (probe mode).
@@ -970,16 +978,34 @@ type c12Worker struct {
 func (w *c12Worker) run(max int, hist []c12Ev, cont, trace bool) c12Result {
 	var r c12Result
 	for attempt := 0; attempt < 3; attempt++ {
+		if atomic.LoadInt64(&c12WatchdogRetries) > c12WatchdogBudget {
+			return c12Result{Max: max, Hist: hist, Inconcl: "exploration abandoned: quiescence watchdog fired too often (stalled machine or a sender that no longer settles)"}
+		}
 		r = w.runOnce(max, hist, cont, trace)
 		if r.Inconcl == "" {
 			break
 		}
 		atomic.AddInt64(&c12WatchdogRetries, 1)
+		vk.Logf("watchdog (attempt %d): %s", attempt+1, r.Inconcl)
+		// wsclient.Conn stops writing for good after one write error or missed write
+		// deadline (and may still accept envelopes into its buffer): after a watchdog
+		// hit the worker continues on a fresh connection
+		if c, err := wsclient.Dial(context.Background(), w.url, c12Logger); err == nil {
+			old := w.conn
+			w.conn = c
+			go func() { _ = old.Close() }()
+		} else {
+			r.Inconcl += "; redial failed: " + err.Error()
+			break
+		}
 	}
 	return r
 }
 
 var c12WatchdogRetries int64
+
+// c12WatchdogBudget bounds the time a run can lose to the watchdog (each hit costs up to 20 s on one of 32 workers).
+const c12WatchdogBudget = 64
 
 func (w *c12Worker) runOnce(max int, hist []c12Ev, cont, trace bool) c12Result {
 	res := c12Result{Max: max, Hist: hist}
@@ -1377,7 +1403,7 @@ func runC12(e *Env) {
 		os.Stderr = orig
 	}
 	// thousands of tiny short-lived senders per second: collect less often, within a memory cap
-	defer debug.SetGCPercent(debug.SetGCPercent(800))
+	defer debug.SetGCPercent(debug.SetGCPercent(400))
 	defer debug.SetMemoryLimit(debug.SetMemoryLimit(3 << 30))
 	verifhook.Reset()
 	c12InstallHooks()
@@ -1387,7 +1413,7 @@ func runC12(e *Env) {
 	defer srv.Close()
 	wsURL := "ws" + strings.TrimPrefix(srv.URL, "http")
 	x := &c12Explorer{e: e, pool: make(chan *c12Worker, c12Workers), fails: map[string]*c12Failure{}}
-	var conns []*wsclient.Conn
+	var workers []*c12Worker
 	for i := 0; i < c12Workers; i++ {
 		c, err := wsclient.Dial(context.Background(), wsURL, c12Logger)
 		if err != nil {
@@ -1395,12 +1421,14 @@ func runC12(e *Env) {
 			e.R.Require(false, "no WebSocket connection")
 			return
 		}
-		conns = append(conns, c)
-		x.pool <- &c12Worker{conn: c}
+		w := &c12Worker{conn: c, url: wsURL}
+		workers = append(workers, w)
+		x.pool <- w
 	}
 	defer func() {
-		for _, c := range conns {
-			_ = c.Close()
+		for _, w := range workers {
+			c := w.conn
+			go func() { _ = c.Close() }()
 		}
 	}()
 
@@ -1664,6 +1692,8 @@ func runC12(e *Env) {
 	e.R.SetExtra("watchdog_hits_retried", atomic.LoadInt64(&c12WatchdogRetries))
 	e.R.SetExtra("wall_s_harness", time.Since(t0).Seconds())
 
+	e.R.Require(atomic.LoadInt64(&c12WatchdogRetries) <= c12WatchdogBudget, "quiescence watchdog fired too often; exploration abandoned")
+	e.R.Require(e.R.Counter("inconclusive") == 0, fmt.Sprintf("%d histories never reached quiescence in three attempts on fresh senders (while others did): no verdict for them", e.R.Counter("inconclusive")))
 	e.R.Require(atomic.LoadInt64(&x.runs) >= int64(len(cases)), "fewer histories run than generated")
 	e.R.Require(atomic.LoadInt64(&x.starts) > 0 && atomic.LoadInt64(&x.ts) > 0, "no transfer start / no TransferStart message observed")
 	e.R.Require(atomic.LoadInt64(&x.exits) > 0, "hook sender.runTransfer.exit never hit")
